@@ -14,6 +14,63 @@ use crate::subj;
 #[derive(Clone, Copy)]
 pub struct C06;
 
+/// one data line as a component (the library's own line parsers), for the edit history below
+fn component_of(line: &str) -> Option<Energy> {
+    let body = line.split('#').next().unwrap_or("");
+    if body.contains("CONSUMO") {
+        line.parse::<cteepbd::types::EUsed>().ok().map(Energy::Used)
+    } else if body.contains("PRODUCCION") {
+        line.parse::<cteepbd::types::EProd>().ok().map(Energy::Prod)
+    } else if body.contains("SALIDA") {
+        line.parse::<cteepbd::types::EOut>().ok().map(Energy::Out)
+    } else if body.contains("AUX") {
+        line.parse::<cteepbd::types::EAux>().ok().map(Energy::Aux)
+    } else {
+        None
+    }
+}
+
+/// auxiliary energy by (system, service) of a component set
+fn aux_table(c: &cteepbd::Components) -> BTreeMap<(i32, String), Vec<f64>> {
+    let mut m: BTreeMap<(i32, String), Vec<f64>> = BTreeMap::new();
+    for e in &c.data {
+        if let Energy::Aux(a) = e {
+            let v: Vec<f64> = a.values.iter().map(|x| *x as f64).collect();
+            add_into(m.entry((a.id, format!("{}", a.service))).or_default(), &v);
+        }
+    }
+    m.retain(|_, v| v.iter().any(|x| x.abs() > 1e-9));
+    m
+}
+
+/// History: the file without its last line is read (and normalized), the last line is then added to the
+/// component list through the public API and the set is normalized again. The auxiliaries must end where they end
+/// when the whole file is read at once (the state reached from elsewhere = the state reached from the start).
+fn edit_history(text: &str, whole: &cteepbd::Components, t: f64, out: &mut Out) {
+    let lines: Vec<&str> = text.lines().collect();
+    let Some((last, head)) = lines.split_last() else { return };
+    let Some(extra) = component_of(last) else { return };
+    let head_text: String = head.iter().map(|l| format!("{l}\n")).collect();
+    let Ok(mut c1) = subj::parse(&head_text) else { return };
+    if !c1.data.iter().any(|c| matches!(c, Energy::Aux(_))) || c1.data.iter().map(|c| cteepbd::types::HasValues::values(c).len()).max() != Some(cteepbd::types::HasValues::values(&extra).len()) {
+        return;
+    }
+    c1.data.push(extra);
+    out.evals += 1;
+    let Ok(c2) = c1.normalize() else {
+        // refusing the edited set is a typed answer; reading the whole file succeeded, so this is a difference
+        out.viol("same_assignment_after_edit_and_renormalize", &["history"], "read(file minus last line) + push(last line) + normalize()", "error", "the assignment of the whole file");
+        return;
+    };
+    out.compared += 1;
+    out.regime("edit_history");
+    let (a2, a3) = (aux_table(&c2), aux_table(whole));
+    let same = a2.len() == a3.len() && a2.iter().all(|(k, v)| a3.get(k).map(|w| v.len() == w.len() && v.iter().zip(w).all(|(x, y)| (x - y).abs() <= t)).unwrap_or(false));
+    if !same {
+        out.viol("same_assignment_after_edit_and_renormalize", &["history"], "read(file minus last line) + push(last line) + normalize()", format!("{a2:?}"), format!("as when the whole file is read: {a3:?}"));
+    }
+}
+
 impl StateCheck for C06 {
     fn check(&self, text: &str, _l: &[Line], out: &mut Out) {
         let decls = decl::read(text);
@@ -33,6 +90,7 @@ impl StateCheck for C06 {
         let n = decls.iter().map(|d| d.vals.len()).max().unwrap_or(0);
         let maxv = decls.iter().flat_map(|d| d.vals.iter()).fold(0.0f64, |a, b| a.max(b.abs()));
         let t = 1e-4 + 4e-6 * maxv * decls.len() as f64;
+        edit_history(text, &comps, t, out);
         // declared auxiliaries per system
         let mut declared: BTreeMap<i32, Vec<f64>> = BTreeMap::new();
         for d in decls.iter().filter(|d| d.kind == Kind::Aux) {
@@ -246,7 +304,7 @@ pub fn run(ctx: &Ctx) -> i32 {
             level: "model_checking",
             rule: "AUX model: systems {1,2,legacy} x {AUX, uses of ACS/CAL (gas) and REF (electricity), outputs ACS/CAL (+) and REF (-)} x vectors incl. zero-output steps, all sets up to the depth; oracle on every successfully parsed file with an AUX line; non-trivial = a multi-service system has auxiliaries".into(),
             assumptions: strs(&["a typed error (refusal) is not a silent loss and is accepted", "systems in the model only serve EPB services", "values compared at 1e-4"]),
-            required_regimes: strs(&["single_service", "feature:multi_service", "feature:proportional_split", "feature:multi_service_system_beside_another", "feature:several_systems_with_aux", "feature:aux_at_step_without_output", "feature:mixed_sign_outputs", "feature:aux_is_only_electricity", "typed_refusal"]),
+            required_regimes: strs(&["edit_history", "single_service", "feature:multi_service", "feature:proportional_split", "feature:multi_service_system_beside_another", "feature:several_systems_with_aux", "feature:aux_at_step_without_output", "feature:mixed_sign_outputs", "feature:aux_is_only_electricity", "typed_refusal"]),
             extra: serde_json::json!({}),
         },
     )
